@@ -25,6 +25,19 @@ CLAIMED["C02"] = dict(
    note="Bounds: quick 1+1 candidates, thorough 2+2 and lite; UDP host candidates; authenticated-request sources are concrete (prflx creation formats the address). Trusted: encoder (validated natively per run), z3, integrity contract (tag injective in key), taskloop.Run contract (C10 assumed), clock readings within a step <= 1 ms apart. Outside: bytes->Decode (pion/stun), TCP candidates, IPv6 zones.",
    ref="DESIGN.md §5 C02")
 
+CLAIMED["C03"] = dict(
+   text="Single-step selection lemmas over the real handleInbound (both selectors, lite wrapper) and one real ContactCandidates tick, from a symbolic pre-state satisfying the selection invariant: the invariant (selected => listed, Succeeded, nominated) is inductive; pairs become Succeeded only through their own matched response (lite controlled: authenticated nomination); controlling selects only on a matched response whose recorded request carried USE-CANDIDATE; controlled selects only on a nominating request on that very pair or on the response of a pair nominated earlier; controlled never emits USE-CANDIDATE; lite controlled never emits requests; plain USE-CANDIDATE never lowers the selected priority. Emitted datagrams are real stun.Build output decoded by the real Decode.",
+   note="Bounds: 2 local + 1 remote UDP candidates, candidate priorities 1..256, 0..1 outstanding transactions quick (0..2 thorough). Ghost field: sending local candidate of each transaction; the cross-local response case is a listed known finding (C03-response-on-other-local). Trusted: encoder, z3, integrity contract, clock model. Outside: application binding-request handler, TCP, automatic renomination.",
+   ref="DESIGN.md §5 C03")
+CLAIMED["C04"] = dict(
+   text="(a) the timing decision connectionStateForDisconnection and initialCheckingTimeout are proved equal to independently written oracles for all durations in [0,2^62); (b) validateSelectedPair, 1..2 ticks through the real connectivityChecks loop (timer and force channel scripted), updateConnectionState and Restart are executed from the lifecycle's start states with symbolic silence/timeouts: every notified transition is a lifecycle edge without repeats, Connected/Disconnected only with a selection, Failed only after release and (from Connected) only with the disconnected timeout disabled, a tick while Failed changes nothing, one notification per change, the Failed notification runs after the release.",
+   note="Bounds: durations < 2^62; tick harness: timeouts {default,0,1 ns}, silence 1 ms..1 min, <= 2 ticks; thresholds asserted outside a 100 ms band (the handler reads the clock after the harness). Trusted: encoder, z3, clock model (monotone, <= 1 ms per reading inside a step), scripted timers, taskloop.Run contract. Outside: notifier delivery order (C11), nothing-after-Closed (C10).",
+   ref="DESIGN.md §5 C04")
+CLAIMED["C20"] = dict(
+   text="Renomination lemmas on the real controlledSelector/controllingSelector/RenominateCandidate/NominationAttribute code: acceptance of any sequence of 3-4 valued/plain nominations equals 'greater than every accepted value'; an accepted nomination on a valid pair selects it for all priorities, a stale one changes nothing and is still answered; the two-step deferred path (nomination before validity, then the matched response) selects the pair for all priorities; controlling switches on every matched valued response; only a controlling agent with the feature can renominate; 24-bit values survive the codec.",
+   note="Bounds: 2 local + 1 remote candidates, 24-bit nomination values, 0..2 outstanding transactions. The deferred-path defect found by this check was repaired (fix commit 1c6a613, recorded as fixed). Trusted: encoder, z3, integrity contract. Outside: two-agent convergence on the mirror pair.",
+   ref="DESIGN.md §5 C20")
+
 NOT_APPLICABLE = {
  "C01": "needs two live agents, a symbolic network scheduler and a fairness (liveness) argument; a sequential encoder of single functions cannot express it (its safety half is covered by the C02/C03 lemmas)",
  "C08": "termination / unblocking of blocked goroutines and a goroutine census: no scheduler or channel model in a sequential SSA encoder",
@@ -33,8 +46,6 @@ NOT_APPLICABLE = {
 }
 
 NOT_BUILT = {
- "C03": "check not built yet in this round (planned in DESIGN.md §5); not claimed",
- "C04": "check not built yet in this round (planned in DESIGN.md §5); not claimed",
  "C06": "check not built yet in this round (planned in DESIGN.md §5); not claimed",
  "C07": "check not built yet in this round (planned in DESIGN.md §5); not claimed",
  "C09": "check not built yet in this round (planned in DESIGN.md §5); not claimed",
@@ -44,7 +55,6 @@ NOT_BUILT = {
  "C16": "check not built yet in this round (planned in DESIGN.md §5); not claimed",
  "C18": "check not built yet in this round (planned in DESIGN.md §5); not claimed",
  "C19": "check not built yet in this round (planned in DESIGN.md §5); not claimed",
- "C20": "check not built yet in this round (planned in DESIGN.md §5); not claimed",
 }
 
 def main():
